@@ -64,6 +64,7 @@ func main() {
 		var c core.Candidate
 		var raw struct {
 			Property string
+			History  []string
 			core.Candidate
 		}
 		if err := json.Unmarshal(b, &raw); err != nil {
@@ -71,7 +72,13 @@ func main() {
 			os.Exit(2)
 		}
 		c = raw.Candidate
+		for _, h := range raw.History {
+			c.Hist = append(c.Hist, []byte(h))
+		}
 		ok, detail := core.Reproduce(c)
+		if !ok && len(c.Hist) > 0 {
+			ok, detail = core.ReproduceWithHistory(c)
+		}
 		if ok {
 			fmt.Printf("VIOLATION property=%s replay=%s\n  reproduced: %s\n", raw.Property, os.Args[2], detail)
 			os.Exit(1)
